@@ -33,7 +33,7 @@ RUNS = {
     "C16": {"quick": 480, "thorough": 30000},
     "C17": {"quick": 480, "thorough": 30000},
     "C19": {"quick": 480, "thorough": 30000},
-    "C18": {"quick": 472, "thorough": 9440},
+    "C18": {"quick": 488, "thorough": 9760},
     "C20": {"quick": 160, "thorough": 9600},
     "C05": {"quick": 480, "thorough": 30000},
     "C06": {"quick": 480, "thorough": 30000},
@@ -494,7 +494,8 @@ COMPONENTS = {
              "defaults: router, body reader, responder, redirector, error handler, logger, JSON renderer, log mailer, SMTP mailer up to the dial",
              "bcrypt (cost lowered by configuration)", "pquerna/otp", "golang.org/x/oauth2 client", "net/http ServeMux"],
     "simulated": ["database (copy semantics)", "session and cookie stores (per-browser jars)", "mail / SMS / OAuth2 provider transports",
-                  "operator", "clock (testing/synctest bubble)", "crypto/rand (seeded stream)", "goroutine scheduling at seams"],
+                  "operator", "clock (testing/synctest bubble)", "crypto/rand (seeded stream)", "goroutine scheduling at seams",
+                  "a second, unrelated authboss instance (real code, own user store, never sent a request) hosted by the same process in a third of the configurations"],
     "stubbed": ["SMTP network (dial always fails)", "HTML templates (JSON renderer used)", "otp pages of the default body reader (thin wrapper)"],
 }
 
